@@ -526,7 +526,6 @@ func shortCallee(call ssa.CallInstruction) string {
 	return full
 }
 
-
 // failureAlreadyReported: every way on from the call ends in a panic, in a
 // return whose error is provably non-nil, or - in a function without an error
 // result - the call is only reached when an *error parameter holds an error.
